@@ -88,12 +88,24 @@ class Controller:
         return i
     return None
 
+  def _is_shared_list(self, raw):
+    """Lists get their canonical name ('<attr>@shared#k' / '<attr>@T<i>#k') only AFTER a run, from who used
+    them; during a forced run an event still carries the raw name.  A list stored under an attribute for
+    which the recorded runs found a list shared between threads takes scheduled steps like every other
+    shared object (otherwise the requested interleaving of exactly those events is left to chance)."""
+    for p in _PLISTS.values():
+      if p._pname == raw:
+        pref = '%s@shared#' % p._attr
+        return any(s.startswith(pref) for s in self.shared)
+    return False
+
   def begin(self, ev):
     i = self.me()
     if i is None or self.mode == 'off':
       return None
     ev.thread = i
-    if self.mode == 'forced' and self.shared is not None and ev.obj not in self.shared:
+    if (self.mode == 'forced' and self.shared is not None and ev.obj not in self.shared
+        and not self._is_shared_list(ev.obj)):
       return ('free', i)
     if self.mode == 'forced':
       with self.cv:
